@@ -114,6 +114,7 @@ def check(scn):
                 m["cmd"] = m["ff"] * m["cmd"] + (1 - m["ff"]) * sig
                 if abs(m["cmd"] - m["ref"]["md"]) > sens * m["ref"]["md_std"]:
                     m["state"], m["waiting"] = "warning", True
+                    scn["_warned"] = True
         else:
             if (not m["waiting"]) or a in ("g_cols", "g_two"):
                 refused = True
@@ -164,15 +165,18 @@ def run(tier, seed, repo, focus=None):
                  "length %d x sensitivity x oracle length; reference statistics vs an independent k-fold computation; "
                  "non-trivial = the sequence reaches a warning" % depth, {"depth": depth})
     known = load_known()
-    configs = [(0.5, 2, 4, 24), (1.0, 3, 4, 24)] if quick else [(0.5, 2, 4, 24), (1.0, 3, 4, 24), (0.2, 4, 3, 30), (2.0, 2, 5, 40)]
+    # small sensitivities make a single in-margin sample trigger the warning, so that short sequences reach the
+    # oracle phase and complete it with higher (g_ok) and lower (g_bad) accuracy than the reference
+    configs = [(0.05, 2, 2, 24), (0.2, 3, 3, 24)] if quick else \
+        [(0.05, 2, 2, 24), (0.2, 3, 3, 24), (0.05, 4, 4, 24), (0.5, 2, 2, 24), (1.0, 3, 2, 24), (0.02, 4, 3, 30)]
     rng = np.random.RandomState(seed)
     for sens, L, k, n in configs:
         seqs = list(itertools.product(ALPHABET, repeat=depth))
-        if len(seqs) > (2500 if quick else 20000):
-            idx = rng.choice(len(seqs), 2500 if quick else 20000, replace=False)
+        if len(seqs) > (1500 if quick else 20000):
+            idx = rng.choice(len(seqs), 1500 if quick else 20000, replace=False)
             seqs = [seqs[i] for i in idx]
         # plus long legal-heavy sequences
-        for s in range(20 if quick else 100):
+        for s in range(10 if quick else 100):
             r2 = np.random.RandomState(seed + s)
             seqs.append(tuple(r2.choice(ALPHABET, p=[0.3, 0.2, 0.2, 0.15, 0.05, 0.05, 0.05]) for _ in range(30)))
         for seq in seqs:
@@ -181,7 +185,7 @@ def run(tier, seed, repo, focus=None):
                 msg = check(scn)
             except Exception as e:
                 msg = "%s: %s" % (type(e).__name__, e)
-            res.count(key=(sens, L, tuple(seq)), nontrivial=("u_in" in seq), n=len(seq), check="MD3 protocol")
+            res.count(key=(sens, L, tuple(seq)), nontrivial=(scn.get("_warned", False)), n=len(seq), check="MD3 protocol")
             if msg:
                 res.violation("MD3: " + msg, REPLAY % dict(verif=VERIF, scn=scn), known)
                 break
